@@ -67,11 +67,13 @@ def gen_case(rng, idx, fixed_pairs=None):
             if fate == 1: lines.append('deliver %d %d' % (j, k2))   # duplicated
             if fate == 2: k_sp['pending'].insert(0, (j, k2))     # will be delivered again later
         if rng.chance(1, 5) and k_sp['nops'] >= 1:
-            # the distributor of a node batches that node's OWN mutations, in issue order
+            # the distributor of a node batches that node's OWN mutations, in the order they REGISTER with it: concurrent
+            # handle calls can register newest-first (D13), so any order
             frm = rng.below(n); to = (frm + 1 + rng.below(n - 1)) % n
             own = [x for x in range(k_sp['nops']) if k_sp['origin'][x] == frm]
             if own:
-                pick = sorted(set(rng.choice(own) for _ in range(rng.range(1, 3))))
+                pick = sorted(set(rng.choice(own) for _ in range(rng.range(1, 4))))
+                if rng.chance(1, 2): pick = rng.shuffle(pick)
                 lines.append('batch %d %d %s' % (frm, to, ','.join(map(str, pick))))
         if rng.chance(1, 8): lines.append('purge %d' % rng.below(n))
         if rng.chance(1, 4):
